@@ -93,6 +93,10 @@ XMLUCS4Transcoder::transcodeFrom(const  XMLByte* const          srcData
         if (fSwapped)
             nextVal = BitOps::swapBytes(nextVal);
 
+        // A UCS-4 code unit must be a Unicode scalar value
+        if (nextVal > 0x10FFFF || (nextVal >= 0xD800 && nextVal <= 0xDFFF))
+            ThrowXMLwithMemMgr(TranscodingException, XMLExcepts::Trans_BadSrcSeq, getMemoryManager());
+
         // Handle a surrogate pair if needed
         if (nextVal & 0xFFFF0000)
         {
